@@ -1165,6 +1165,10 @@ class Effects:
         """Every path from the function entry to ``site`` passes one of ``blockers``."""
         g = self.flow.cfg(fn)
         targets = [n for n in g.node_containing(site) if not n.copy and n.kind != "with_exit"]
+        live = g.live_nodes()
+        if not [n for n in targets if n in live]:
+            # e.g. a finally block whose try body always returns or raises: only the duplicated copies are reachable
+            targets = [n for n in g.node_containing(site) if n.kind != "with_exit" and n in live]
         if not targets:
             return False
         bl: Set = set()
